@@ -116,7 +116,7 @@ pub fn main() -> i32 {
         }
         Some("corpus") => {
             let out = args.get(2).cloned().unwrap_or_else(|| "/tmp/vp-corpus".into());
-            checks::emit_corpus(Path::new(&out));
+            checks::emit_corpus(Path::new(&out), args.get(3).map(|s| s.as_str()).unwrap_or("parse"));
             0
         }
         _ => {
@@ -239,6 +239,8 @@ fn run(id: &str, tier: Tier, only: Option<&str>) -> i32 {
     let _ = std::fs::create_dir_all(&ctx.replay_dir);
     crate::meter::set_emergency(id, &ctx.replay_dir.join(format!("{}-heap-cap.json", id)).to_string_lossy());
     *RUN_INFO.lock().unwrap() = Some((id.to_string(), ctx.replay_dir.clone()));
+    // termination is part of the statement for C01 (always terminates), C06 (cycles are errors) and C14 (the loop keeps running)
+    start_stall_watchdog(id.to_string(), ctx.replay_dir.clone(), matches!(id, "C01" | "C06" | "C14"));
     let t0 = Instant::now();
     let mut reports = Vec::new();
     let mut violations: Vec<ViolationRec> = Vec::new();
